@@ -754,68 +754,113 @@ Section Same.
     rewrite Z.rem_mul_r by lia.
     pose proof (Z.testbit_spec' e (Z.of_nat k) ltac:(lia)) as T. destruct (Z.testbit e (Z.of_nat k)); cbn [Z.b2z] in T; rewrite <- T; lia.
   Qed.
-  Lemma pow_go_spec sq mulself base :
-    (forall acc p, good p acc -> exists r, sq acc = Some r /\ good (pmul p p) r) ->
-    (forall acc p, good p acc -> exists r, mulself acc = Some r /\ good (pmul p base) r) ->
-    forall k e acc n, (0 <= e)%Z -> good (ppow fk base n) acc ->
-    exists r, pow_go sq mulself k e acc = Some r /\
-              good (ppow fk base (n * 2 ^ k + Z.to_nat (e mod 2 ^ Z.of_nat k))%nat) r.
-  Proof.
-    intros Hsq Hmu. induction k as [|k IH]; intros e acc n He G.
-    - exists acc. split; [reflexivity|]. cbn [pow_go]. rewrite Z.mod_1_r. cbn [Z.to_nat Nat.pow].
-      replace (n * 1 + 0)%nat with n by lia. exact G.
-    - cbn [pow_go]. destruct (Hsq acc _ G) as [acc1 [S1 S2]]. rewrite S1.
-      assert (G2 : good (ppow fk base (n + n)) acc1).
-      { apply (good_peq (pmul (ppow fk base n) (ppow fk base n))); [symmetry; apply ppow_add|exact S2]. }
-      destruct (Z.testbit e (Z.of_nat k)) eqn:B.
-      + destruct (Hmu acc1 _ G2) as [acc2 [M1 M2]]. rewrite M1.
-        assert (G3 : good (ppow fk base (n + n + 1)) acc2).
-        { apply (good_peq (pmul (ppow fk base (n + n)) base)); [|exact M2].
-          rewrite (ppow_add fk base (n + n) 1). apply pmul_peq; [reflexivity|]. symmetry. apply ppow_1. }
-        destruct (IH e acc2 _ He G3) as [r [R1 R2]]. exists r. split; [exact R1|].
-        rewrite (bit_step e k He), B.
-        replace (n * 2 ^ S k + Z.to_nat (2 ^ Z.of_nat k + e mod 2 ^ Z.of_nat k))%nat
-          with ((n + n + 1) * 2 ^ k + Z.to_nat (e mod 2 ^ Z.of_nat k))%nat; [exact R2|].
-        pose proof (Z.mod_pos_bound e (2 ^ Z.of_nat k) ltac:(lia)).
-        rewrite Z2Nat.inj_add by lia. rewrite Z2Nat.inj_pow by lia. rewrite Nat2Z.id. cbn [Nat.pow]. change (Z.to_nat 2) with 2%nat. lia.
-      + destruct (IH e acc1 _ He G2) as [r [R1 R2]]. exists r. split; [exact R1|].
-        rewrite (bit_step e k He), B. rewrite Z.add_0_l.
-        replace (n * 2 ^ S k)%nat with ((n + n) * 2 ^ k)%nat by (cbn [Nat.pow]; lia). exact R2.
-  Qed.
-  Theorem pow_with_spec sq mulself l e : okl l -> (0 <= e)%Z ->
-    (forall acc p, good p acc -> exists r, sq acc = Some r /\ good (pmul p p) r) ->
-    (forall acc p, good p acc -> exists r, mulself acc = Some r /\ good (pmul p (D l)) r) ->
-    exists r, poly_pow_with o sq mulself l e = Some r /\ okl r /\ peq (D r) (ppow fk (D l) (Z.to_nat e)).
-  Proof.
-    intros Hl He Hsq Hmu. unfold poly_pow_with. destruct (e =? 0)%Z eqn:E0.
-    - apply Z.eqb_eq in E0. subst e. exists (poly_one o). split; [reflexivity|]. split; [apply (one_ok o fk ok den H)|].
-      rewrite (one_D o fk ok den H). reflexivity.
-    - apply Z.eqb_neq in E0. destruct (poly_degree o l <? 0)%Z eqn:Ed.
-      + apply Z.ltb_lt in Ed. exists []. split; [reflexivity|]. split; [constructor|].
-        apply (degree_neg_pzero o fk ok den H l Hl) in Ed. cbn [map]. symmetry. apply peq_nil_pzero.
-        destruct (Z.to_nat e) eqn:En; [lia|]. cbn [ppow]. apply pmul_pzero_l. exact Ed.
-      + destruct (pow_go_spec sq mulself (D l) Hsq Hmu (Z.to_nat (bitlen e)) e (poly_one o) O He) as [r [R1 [R2 [R3 R4]]]].
-        { cbn [ppow]. exact good_one. }
-        exists r. split; [exact R1|]. split; [exact R2|]. rewrite R4.
-        replace (0 * 2 ^ Z.to_nat (bitlen e) + Z.to_nat (e mod 2 ^ Z.of_nat (Z.to_nat (bitlen e))))%nat with (Z.to_nat e); [reflexivity|].
-        unfold bitlen. rewrite (proj2 (Z.eqb_neq e 0) E0).
-        pose proof (Z.log2_nonneg e). rewrite Z2Nat.id by lia.
-        rewrite Z.mod_small; [lia|]. split; [lia|]. apply Z.log2_lt_pow2; lia.
-  Qed.
-  (* pow = repeated product (with the repaired slow_square and the naive product, as in the code) *)
+  (* generic in the invariant G relating the accumulator to the polynomial it represents *)
+  Section PowGen.
+    Variable G : list K -> list F -> Prop.
+    Hypothesis G_peq : forall p q acc, peq p q -> G p acc -> G q acc.
+    Hypothesis G_one : G (pone fk) (poly_one o).
+    Hypothesis G_nil : forall p, pzero fk p -> G p [].
+    Lemma pow_go_spec sq mulself base :
+      (forall acc p, G p acc -> exists r, sq acc = Some r /\ G (pmul p p) r) ->
+      (forall acc p, G p acc -> exists r, mulself acc = Some r /\ G (pmul p base) r) ->
+      forall k e acc n, (0 <= e)%Z -> G (ppow fk base n) acc ->
+      exists r, pow_go sq mulself k e acc = Some r /\
+                G (ppow fk base (n * 2 ^ k + Z.to_nat (e mod 2 ^ Z.of_nat k))%nat) r.
+    Proof.
+      intros Hsq Hmu. induction k as [|k IH]; intros e acc n He G0.
+      - exists acc. split; [reflexivity|]. rewrite Z.mod_1_r. cbn [Z.to_nat Nat.pow].
+        replace (n * 1 + 0)%nat with n by lia. exact G0.
+      - cbn [pow_go]. destruct (Hsq acc _ G0) as [acc1 [S1 S2]]. rewrite S1.
+        assert (G2 : G (ppow fk base (n + n)) acc1).
+        { apply (G_peq (pmul (ppow fk base n) (ppow fk base n))); [symmetry; apply ppow_add|exact S2]. }
+        destruct (Z.testbit e (Z.of_nat k)) eqn:B.
+        + destruct (Hmu acc1 _ G2) as [acc2 [M1 M2]]. rewrite M1.
+          assert (G3 : G (ppow fk base (n + n + 1)) acc2).
+          { apply (G_peq (pmul (ppow fk base (n + n)) base)); [|exact M2].
+            rewrite (ppow_add fk base (n + n) 1). apply pmul_peq; [reflexivity|]. symmetry. apply ppow_1. }
+          destruct (IH e acc2 _ He G3) as [r [R1 R2]]. exists r. split; [exact R1|].
+          rewrite (bit_step e k He), B.
+          replace (n * 2 ^ S k + Z.to_nat (2 ^ Z.of_nat k + e mod 2 ^ Z.of_nat k))%nat
+            with ((n + n + 1) * 2 ^ k + Z.to_nat (e mod 2 ^ Z.of_nat k))%nat; [exact R2|].
+          pose proof (Z.mod_pos_bound e (2 ^ Z.of_nat k) ltac:(lia)).
+          rewrite Z2Nat.inj_add by lia. rewrite Z2Nat.inj_pow by lia. rewrite Nat2Z.id. cbn [Nat.pow]. change (Z.to_nat 2) with 2%nat. lia.
+        + destruct (IH e acc1 _ He G2) as [r [R1 R2]]. exists r. split; [exact R1|].
+          rewrite (bit_step e k He), B. rewrite Z.add_0_l.
+          replace (n * 2 ^ S k)%nat with ((n + n) * 2 ^ k)%nat by (cbn [Nat.pow]; lia). exact R2.
+    Qed.
+    Theorem pow_with_spec sq mulself l e : okl l -> (0 <= e)%Z ->
+      (forall acc p, G p acc -> exists r, sq acc = Some r /\ G (pmul p p) r) ->
+      (forall acc p, G p acc -> exists r, mulself acc = Some r /\ G (pmul p (D l)) r) ->
+      exists r, poly_pow_with o sq mulself l e = Some r /\ G (ppow fk (D l) (Z.to_nat e)) r.
+    Proof.
+      intros Hl He Hsq Hmu. unfold poly_pow_with. destruct (e =? 0)%Z eqn:E0.
+      - apply Z.eqb_eq in E0. subst e. exists (poly_one o). split; [reflexivity|]. exact G_one.
+      - apply Z.eqb_neq in E0. destruct (poly_degree o l <? 0)%Z eqn:Ed.
+        + apply Z.ltb_lt in Ed. exists []. split; [reflexivity|]. apply G_nil.
+          apply (degree_neg_pzero o fk ok den H l Hl) in Ed.
+          destruct (Z.to_nat e) eqn:En; [lia|]. cbn [ppow]. apply pmul_pzero_l. exact Ed.
+        + destruct (pow_go_spec sq mulself (D l) Hsq Hmu (Z.to_nat (bitlen e)) e (poly_one o) O He) as [r [R1 R2]].
+          { cbn [ppow]. exact G_one. }
+          exists r. split; [exact R1|].
+          replace (Z.to_nat e) with (0 * 2 ^ Z.to_nat (bitlen e) + Z.to_nat (e mod 2 ^ Z.of_nat (Z.to_nat (bitlen e))))%nat; [exact R2|].
+          unfold bitlen. rewrite (proj2 (Z.eqb_neq e 0) E0).
+          pose proof (Z.log2_nonneg e). rewrite Z2Nat.id by lia.
+          rewrite Z.mod_small; [lia|]. split; [lia|]. apply Z.log2_lt_pow2; lia.
+    Qed.
+  End PowGen.
+
+  (* the weaker invariant that suffices for the repaired code *)
+  Definition repr (p : list K) (acc : list F) : Prop := okl acc /\ peq (D acc) p.
+  Lemma repr_peq p q acc : peq p q -> repr p acc -> repr q acc.
+  Proof. intros E [G1 G2]. split; [exact G1|]. rewrite G2. exact E. Qed.
+  Lemma repr_one : repr (pone fk) (poly_one o).
+  Proof. split; [apply (one_ok o fk ok den H)|rewrite (one_D o fk ok den H); reflexivity]. Qed.
+  Lemma repr_nil p : pzero fk p -> repr p [].
+  Proof. intros Z. split; [constructor|]. cbn [map]. symmetry. apply peq_nil_pzero. exact Z. Qed.
+  Lemma good_nil p : pzero fk p -> good p [].
+  Proof. intros Z. split; [constructor|]. split; [reflexivity|]. cbn [map]. symmetry. apply peq_nil_pzero. exact Z. Qed.
+  Lemma good_repr p acc : good p acc -> repr p acc.
+  Proof. intros [G1 [_ G3]]. split; assumption. Qed.
+
+  (* pow = repeated product (slow_square after the repair, and the naive product, as in the code) *)
   Theorem pow_spec l e : okl l -> (0 <= e)%Z ->
     exists r, poly_pow o l e = Some r /\ okl r /\ peq (D r) (ppow fk (D l) (Z.to_nat e)).
   Proof.
-    intros Hl He. unfold poly_pow. apply pow_with_spec; [exact Hl|exact He| |].
-    - intros acc p [G1 [G2 G3]]. unfold poly_slow_square. destruct (slow_square_v1_spec acc G1) as [r [R1 R2]].
+    intros Hl He. unfold poly_pow.
+    destruct (pow_with_spec repr repr_peq repr_one repr_nil (poly_slow_square o) (fun acc => Some (poly_mul o acc l)) l e Hl He)
+      as [r [R1 [R2 R3]]].
+    - intros acc p [G1 G3]. unfold poly_slow_square. destruct (slow_square_v1_spec acc G1) as [r [R1 R2]].
+      exists r. split; [exact R1|]. apply (repr_peq (pmul (D acc) (D acc))); [rewrite G3; reflexivity|apply good_repr; exact R2].
+    - intros acc p [G1 G3]. eexists. split; [reflexivity|]. unfold poly_mul.
+      destruct (naive_multiply_spec acc l G1 Hl) as [S1 S2]. split; [exact S1|]. rewrite S2, G3. reflexivity.
+    - exists r. split; [exact R1|]. split; assumption.
+  Qed.
+  (* the same theorem for the code BEFORE the repair needs the stronger invariant (no stored zero in the accumulator):
+     pow never hit the slow_square panic because every intermediate result is stored without leading zeros *)
+  Theorem pow_v0_spec l e : okl l -> (0 <= e)%Z ->
+    exists r, poly_pow_with o (poly_slow_square_v0 o) (fun acc => Some (poly_mul o acc l)) l e = Some r /\
+              okl r /\ peq (D r) (ppow fk (D l) (Z.to_nat e)).
+  Proof.
+    intros Hl He.
+    destruct (pow_with_spec good good_peq good_one good_nil (poly_slow_square_v0 o) (fun acc => Some (poly_mul o acc l)) l e Hl He)
+      as [r [R1 [R2 [_ R3]]]].
+    - intros acc p [G1 [G2 G3]]. destruct (slow_square_v0_spec acc G1 G2) as [r [R1 R2]].
       exists r. split; [exact R1|]. apply (good_peq (pmul (D acc) (D acc))); [rewrite G3; reflexivity|exact R2].
-    - intros acc p G. eexists. split; [reflexivity|]. unfold poly_mul. apply naive_multiply_good; [exact G|exact Hl|reflexivity].
+    - intros acc p G0. eexists. split; [reflexivity|]. unfold poly_mul. apply naive_multiply_good; [exact G0|exact Hl|reflexivity].
+    - exists r. split; [exact R1|]. split; assumption.
   Qed.
 End Same.
 
 (* ------------------------------------------------------------------ batch products: the chunks-of-two loop and the
    thread-count dependent chunking terminate and return the product of the list, for ANY pairwise product `mult`
    that is total and correct on operands whose stored lengths sum to at most `B` (B bounds the NTT domain). *)
+Fixpoint total_len {F} (ps : list (list F)) : Z :=
+  match ps with [] => 0%Z | p :: r => (zlen p + total_len r)%Z end.
+Lemma total_len_nonneg {F} (ps : list (list F)) : (0 <= total_len ps)%Z.
+Proof. induction ps as [|p ps IH]; cbn [total_len]; [lia|]. pose proof (zlen_nonneg p). lia. Qed.
+Lemma total_len_app {F} (a b : list (list F)) : total_len (a ++ b) = (total_len a + total_len b)%Z.
+Proof. induction a as [|p a IH]; cbn [app total_len]; [lia|]. rewrite IH. lia. Qed.
+
 Section Batch.
   Context {F K : Type} (o : fops F) (fk : fieldK K) (ok : F -> Prop) (den : F -> K).
   Hypothesis H : field_ok o fk ok den.
@@ -824,12 +869,6 @@ Section Batch.
   Local Notation peq := (peq fk).
   Local Notation pmul := (pmul fk).
   Local Notation pprod := (pprod fk).
-
-  Definition total_len (ps : list (list F)) : Z := fold_right (fun p s => (zlen p + s)%Z) 0%Z ps.
-  Lemma total_len_nonneg ps : (0 <= total_len ps)%Z.
-  Proof. induction ps as [|p ps IH]; cbn [total_len fold_right]; [lia|]. fold (total_len ps). pose proof (zlen_nonneg p). lia. Qed.
-  Lemma total_len_app a b : total_len (a ++ b) = (total_len a + total_len b)%Z.
-  Proof. induction a as [|p a IH]; cbn [app total_len fold_right]; [lia|]. fold (total_len (a ++ b)) (total_len a). lia. Qed.
 
   Variable B : Z.
   Variable mult : list F -> list F -> option (list F).
@@ -847,13 +886,13 @@ Section Batch.
       + exists []. cbn. repeat split; try lia; try constructor; try reflexivity. intros X; exact X.
       + exists [a]. cbn [chunks2_mul]. repeat split; try (cbn; lia); try assumption; try reflexivity. intros _; discriminate.
       + inversion Hok as [|? ? Ha Hok1]; subst. inversion Hok1 as [|? ? Hb' Hr]; subst.
-        cbn [total_len fold_right] in Hb. fold (total_len r) in Hb. pose proof (total_len_nonneg r) as Tr.
+        cbn [total_len] in Hb. pose proof (total_len_nonneg r) as Tr.
         destruct (Hmult a b Ha Hb' ltac:(lia)) as [p [P1 [P2 [P3 P4]]]].
         destruct (IH r ltac:(cbn [length] in Hn; lia) Hr ltac:(pose proof (zlen_nonneg a); pose proof (zlen_nonneg b); lia))
           as [t [T1 [T2 [T3 [T4 [T5 T6]]]]]].
         cbn [chunks2_mul]. rewrite P1, T1. exists (p :: t).
         split; [reflexivity|]. split; [constructor; assumption|].
-        split; [cbn [total_len fold_right]; fold (total_len t) (total_len r); lia|].
+        split; [cbn [total_len]; lia|].
         split; [cbn [length]; lia|]. split; [intros _; discriminate|].
         cbn [map]. rewrite !pprod_cons, T6, P4. symmetry. apply pmul_assoc.
   Qed.
@@ -864,66 +903,345 @@ Section Batch.
     - destruct ps; [congruence|cbn [length] in Hf; lia].
     - destruct ps as [|p [|q r]]; [congruence| |].
       + exists p. cbn [batch_go]. split; [reflexivity|]. inversion Hok; subst. split; [assumption|].
-        split; [cbn [total_len fold_right]; lia|]. cbn [map]. rewrite pprod_cons, pprod_nil. symmetry. apply pmul_1_r.
+        split; [cbn [total_len]; lia|]. cbn [map]. rewrite pprod_cons, pprod_nil. symmetry. apply pmul_1_r.
       + destruct (chunks2_mul_spec (length (p :: q :: r)) (p :: q :: r) (le_n _) Hok Hb) as [ps' [C1 [C2 [C3 [C4 [C5 C6]]]]]].
-        cbn [batch_go]. cbn [batch_go] in IH. rewrite C1.
+        cbn [batch_go]. rewrite C1.
         destruct (IH ps' (C5 ltac:(discriminate)) ltac:(cbn [length] in *; lia) C2 ltac:(lia)) as [x [X1 [X2 [X3 X4]]]].
         exists x. split; [exact X1|]. split; [exact X2|]. split; [lia|]. rewrite X4. exact C6.
   Qed.
   (* batch_multiply: terminates (fuel = number of factors suffices) and returns the product of the list *)
   Theorem batch_multiply_with_spec ps : Forall okl ps -> (total_len ps <= B)%Z ->
-    exists r, poly_batch_multiply_with o mult ps = Some r /\ okl r /\ (zlen r <= Z.max 1 (total_len ps))%Z /\
+    exists r, poly_batch_multiply_with o mult ps = Some r /\ okl r /\ (ps <> [] -> (zlen r <= total_len ps)%Z) /\
               peq (D r) (pprod (map D ps)).
   Proof.
     intros Hok Hb. unfold poly_batch_multiply_with. destruct ps as [|p ps].
-    - exists (poly_one o). split; [reflexivity|]. split; [apply (one_ok o fk ok den H)|]. split; [cbn; lia|].
+    - exists (poly_one o). split; [reflexivity|]. split; [apply (one_ok o fk ok den H)|]. split; [congruence|].
       rewrite (one_D o fk ok den H). reflexivity.
     - destruct (batch_go_spec (length (p :: ps)) (p :: ps) ltac:(discriminate) (le_n _) Hok Hb) as [r [R1 [R2 [R3 R4]]]].
-      exists r. split; [exact R1|]. split; [exact R2|]. split; [lia|exact R4].
+      exists r. split; [exact R1|]. split; [exact R2|]. split; [intros _; exact R3|exact R4].
   Qed.
+End Batch.
 
-  (* ---- slice::chunks *)
-  Lemma chunks_go_concat {A} fuel n (l : list A) : (1 <= n)%nat -> (length l <= fuel)%nat -> concat (chunks_go fuel n l) = l.
-  Proof.
-    intros Hn. revert l. induction fuel as [|fuel IH]; intros l Hf.
-    - destruct l; [reflexivity|cbn [length] in Hf; lia].
-    - destruct l as [|x l]; [reflexivity|]. cbn [chunks_go concat]. rewrite IH.
-      + apply firstn_skipn.
-      + rewrite skipn_length. cbn [length] in *. lia.
-  Qed.
-  Lemma chunks_go_length {A} fuel n (l : list A) : (2 <= n)%nat -> (length l <= fuel)%nat ->
-    (2 * length (chunks_go fuel n l) <= length l + 1)%nat /\ (l <> [] -> chunks_go fuel n l <> []).
-  Proof.
-    intros Hn. revert l. induction fuel as [|fuel IH]; intros l Hf.
-    - destruct l; [cbn; split; [lia|congruence]|cbn [length] in Hf; lia].
-    - destruct l as [|x l]; [cbn; split; [lia|congruence]|]. cbn [chunks_go]. split; [|discriminate].
-      destruct (IH (skipn n (x :: l))) as [I1 _]; [rewrite skipn_length; cbn [length] in *; lia|].
-      cbn [length]. rewrite skipn_length in I1. cbn [length] in I1. lia.
-  Qed.
-  Lemma Forall_concat_chunks {A} (P : A -> Prop) fuel n (l : list A) : Forall P l -> Forall (Forall P) (chunks_go fuel n l).
-  Proof.
-    revert l. induction fuel as [|fuel IH]; intros l Hl; [constructor|]. destruct l as [|x l]; [constructor|].
-    cbn [chunks_go]. constructor; [apply Forall_firstn; exact Hl|apply IH; apply Forall_skipn; exact Hl].
-  Qed.
-  Lemma total_len_concat (cs : list (list (list F))) :
-    total_len (concat cs) = fold_right (fun c s => (total_len c + s)%Z) 0%Z cs.
-  Proof. induction cs as [|c cs IH]; [reflexivity|]. cbn [concat fold_right]. rewrite total_len_app, IH. reflexivity. Qed.
+(* slice::chunks *)
+Lemma chunks_go_concat {A} fuel n (l : list A) : (1 <= n)%nat -> (length l <= fuel)%nat -> concat (chunks_go fuel n l) = l.
+Proof.
+  intros Hn. revert l. induction fuel as [|fuel IH]; intros l Hf.
+  - destruct l; [reflexivity|cbn [length] in Hf; lia].
+  - destruct l as [|x l]; [reflexivity|]. cbn [chunks_go concat]. rewrite IH.
+    + apply firstn_skipn.
+    + rewrite skipn_length. cbn [length] in *. lia.
+Qed.
+Lemma chunks_go_length {A} fuel n (l : list A) : (2 <= n)%nat -> (length l <= fuel)%nat ->
+  (2 * length (chunks_go fuel n l) <= length l + 1)%nat /\ (l <> [] -> chunks_go fuel n l <> []).
+Proof.
+  intros Hn. revert l. induction fuel as [|fuel IH]; intros l Hf.
+  - destruct l; [cbn; split; [lia|congruence]|cbn [length] in Hf; lia].
+  - destruct l as [|x l]; [cbn; split; [lia|congruence]|]. cbn [chunks_go]. split; [|discriminate].
+    destruct (IH (skipn n (x :: l))) as [I1 _]; [rewrite skipn_length; cbn [length] in *; lia|].
+    cbn [length]. rewrite skipn_length in I1. cbn [length] in I1. lia.
+Qed.
+Lemma chunks_go_nonempty {A} fuel n (l : list A) : (1 <= n)%nat -> Forall (fun c => c <> []) (chunks_go fuel n l).
+Proof.
+  intros Hn. revert l. induction fuel as [|fuel IH]; intros l; [constructor|]. destruct l as [|x l]; [constructor|].
+  cbn [chunks_go]. constructor; [|apply IH]. destruct n; [lia|]. discriminate.
+Qed.
+Lemma Forall_chunks_go {A} (P : A -> Prop) fuel n (l : list A) : Forall P l -> Forall (Forall P) (chunks_go fuel n l).
+Proof.
+  revert l. induction fuel as [|fuel IH]; intros l Hl; [constructor|]. destruct l as [|x l]; [constructor|].
+  cbn [chunks_go]. constructor; [apply Forall_firstn; exact Hl|apply IH; apply Forall_skipn; exact Hl].
+Qed.
+Fixpoint total_len2 {F} (cs : list (list (list F))) : Z :=
+  match cs with [] => 0%Z | c :: r => (total_len c + total_len2 r)%Z end.
+Lemma total_len_concat {F} (cs : list (list (list F))) : total_len (concat cs) = total_len2 cs.
+Proof. induction cs as [|c cs IH]; [reflexivity|]. cbn [concat total_len2]. rewrite total_len_app, IH. reflexivity. Qed.
+
+Section ParBatch.
+  Context {F K : Type} (o : fops F) (fk : fieldK K) (ok : F -> Prop) (den : F -> K).
+  Hypothesis H : field_ok o fk ok den.
+  Local Notation D := (map den).
+  Local Notation okl := (Forall ok).
+  Local Notation peq := (peq fk).
+  Local Notation pmul := (pmul fk).
+  Local Notation pprod := (pprod fk).
+  Variable B : Z.
+  Variable batch : list (list F) -> option (list F).
+  Hypothesis Hbatch : forall ps, ps <> [] -> Forall okl ps -> (total_len ps <= B)%Z ->
+    exists r, batch ps = Some r /\ okl r /\ (zlen r <= total_len ps)%Z /\ peq (D r) (pprod (map D ps)).
+
   Lemma pprod_concat (cs : list (list (list K))) : peq (pprod (concat cs)) (pprod (map pprod cs)).
   Proof.
     induction cs as [|c cs IH]; [reflexivity|]. cbn [concat map]. rewrite pprod_app, pprod_cons, IH. reflexivity.
   Qed.
-
-  Variable batch : list (list F) -> option (list F).
-  Hypothesis Hbatch : forall ps, Forall okl ps -> (total_len ps <= B)%Z ->
-    exists r, batch ps = Some r /\ okl r /\ (zlen r <= Z.max 1 (total_len ps))%Z /\ peq (D r) (pprod (map D ps)).
-
   Lemma map_opt_batch_spec (cs : list (list (list F))) : Forall (Forall okl) cs -> Forall (fun c => c <> []) cs ->
-    Forall (fun c => Forall (fun p => p <> []) c) cs ->
-    (fold_right (fun c s => (total_len c + s)%Z) 0%Z cs <= B)%Z ->
+    (total_len2 cs <= B)%Z ->
     exists ps', map_opt batch cs = Some ps' /\ Forall okl ps' /\ length ps' = length cs /\
-                (total_len ps' <= fold_right (fun c s => (total_len c + s)%Z) 0%Z cs)%Z /\
-                Forall (fun p => p <> []) ps' /\
-                peq (pprod (map D ps')) (pprod (map pprod (map (map D) cs))).
+                (total_len ps' <= total_len2 cs)%Z /\
+                peq (pprod (map D ps')) (pprod (map D (concat cs))).
   Proof.
-  Abort.
-End Batch.
+    induction cs as [|c cs IH]; intros Hok Hne Hb.
+    - exists []. cbn. repeat split; try constructor; try lia; reflexivity.
+    - inversion Hok as [|? ? Hc Hcs]; inversion Hne as [|? ? Nc Ncs]; subst. cbn [total_len2] in Hb.
+      pose proof (total_len_nonneg c). assert (T2 : (0 <= total_len2 cs)%Z).
+      { clear. induction cs as [|x cs IH]; cbn [total_len2]; [lia|]. pose proof (total_len_nonneg x). lia. }
+      destruct (Hbatch c Nc Hc ltac:(lia)) as [r [R1 [R2 [R3 R4]]]].
+      destruct (IH Hcs Ncs ltac:(lia)) as [t [T1 [T3 [T4 [T5 T6]]]]].
+      cbn [map_opt]. rewrite R1, T1. exists (r :: t). split; [reflexivity|]. split; [constructor; assumption|].
+      split; [cbn [length]; lia|]. split; [cbn [total_len total_len2]; lia|].
+      cbn [map concat]. rewrite map_app, pprod_app, pprod_cons, T6, R4. reflexivity.
+  Qed.
+  Lemma par_batch_go_spec nt fuel : (1 <= nt)%Z -> forall ps, ps <> [] -> (length ps <= fuel)%nat -> Forall okl ps ->
+    (total_len ps <= B)%Z ->
+    exists r, par_batch_go batch nt fuel ps = Some r /\ okl r /\ peq (D r) (pprod (map D ps)).
+  Proof.
+    intros Hnt. induction fuel as [|fuel IH]; intros ps Hne Hf Hok Hb.
+    - destruct ps; [congruence|cbn [length] in Hf; lia].
+    - destruct ps as [|p [|q r]]; [congruence| |].
+      + exists p. cbn [par_batch_go]. split; [reflexivity|]. inversion Hok; subst. split; [assumption|].
+        cbn [map]. rewrite pprod_cons, pprod_nil. symmetry. apply pmul_1_r.
+      + cbn [par_batch_go]. destruct (nt <=? 0)%Z eqn:E; [apply Z.leb_le in E; lia|].
+        set (ps := p :: q :: r) in *. set (cs := Z.max 2 (zlen ps / nt)).
+        assert (Hcs : (2 <= Z.to_nat cs)%nat) by (unfold cs; lia).
+        unfold chunks.
+        pose proof (chunks_go_concat (length ps) (Z.to_nat cs) ps ltac:(lia) (le_n _)) as CC.
+        destruct (chunks_go_length (length ps) (Z.to_nat cs) ps Hcs (le_n _)) as [CL CN].
+        destruct (map_opt_batch_spec (chunks_go (length ps) (Z.to_nat cs) ps)) as [ps' [M1 [M2 [M3 [M4 M5]]]]].
+        * apply Forall_chunks_go. exact Hok.
+        * apply chunks_go_nonempty. lia.
+        * rewrite <- total_len_concat, CC. exact Hb.
+        * rewrite M1. rewrite <- total_len_concat, CC in M4. rewrite CC in M5.
+          assert (Hps' : ps' <> []).
+          { intros ->. cbn [length] in M3. specialize (CN ltac:(discriminate)).
+            destruct (chunks_go (length ps) (Z.to_nat cs) ps); [congruence|discriminate]. }
+          destruct (IH ps' Hps' ltac:(subst ps; cbn [length] in *; lia) M2 ltac:(lia)) as [x [X1 [X2 X3]]].
+          exists x. split; [exact X1|]. split; [exact X2|]. rewrite X3. exact M5.
+  Qed.
+  (* par_batch_multiply: for EVERY thread count nt >= 1 *)
+  Theorem par_batch_multiply_with_spec nt ps : (1 <= nt)%Z -> Forall okl ps -> (total_len ps <= B)%Z ->
+    exists r, poly_par_batch_multiply_with o batch nt ps = Some r /\ okl r /\ peq (D r) (pprod (map D ps)).
+  Proof.
+    intros Hnt Hok Hb. unfold poly_par_batch_multiply_with. destruct ps as [|p ps].
+    - exists (poly_one o). split; [reflexivity|]. split; [apply (one_ok o fk ok den H)|].
+      rewrite (one_D o fk ok den H). reflexivity.
+    - apply (par_batch_go_spec nt (length (p :: ps)) Hnt (p :: ps) ltac:(discriminate) (le_n _) Hok Hb).
+  Qed.
+End ParBatch.
+
+(* ------------------------------------------------------------------ NTT-based products.
+   `ntt`/`intt` are parameters of the model; here they are constrained by Section hypotheses that are exactly
+   the C06 theorems (proofs/NttProofs.v: ntt_is_dft, intt_is_idft with hS omega =: wr l, roots_exact_order for
+   half_root / non-zero; proofs/NttDft.v: idft_dft).  What is proved HERE is the degree bookkeeping: the domain
+   length next_power_of_two(deg a + deg b + 1) is large enough for the cyclic convolution not to wrap, the resize
+   only cuts stored zeros (or multiplies by the zero polynomial), truncate(degree + 1) cuts only zeros. *)
+From TF Require Import Dft NttDft.
+
+Section DftEval.
+  Context {K : Type} (fk : fieldK K).
+  Local Notation "0" := (k0 fk).
+  Local Infix "+" := (kadd fk).
+  Local Infix "*" := (kmul fk).
+  Add Field kfield_PolyCoreProofs_DftEval : (kFT fk).
+
+  Lemma peval_ksum v x : peval fk v x = ksum fk (fun j => coeff fk v j * kpow fk x j) (length v).
+  Proof.
+    induction v as [|a v IH]; [reflexivity|]. cbn [peval length]. rewrite ksum_S_l, IH, <- ksum_mul_l.
+    rewrite coeff_cons_0. cbn [kpow]. f_equal; [ring|]. apply ksum_ext. intros j _. rewrite coeff_cons_S. cbn [kpow]. ring.
+  Qed.
+  (* the DFT is the list of evaluations at the powers of w *)
+  Lemma dft_at_peval w v i : dft_at fk w v i = peval fk v (kpow fk w i).
+  Proof. unfold dft_at. rewrite peval_ksum. apply ksum_ext. intros j _. rewrite kpow_mul. reflexivity. Qed.
+
+  (* truncation / zero padding to length n (Vec::resize) at the level of denotations *)
+  Definition ptrunc (n : nat) (p : list K) : list K := firstn n p ++ repeat 0 (n - length p).
+  Lemma ptrunc_length n p : length (ptrunc n p) = n.
+  Proof. unfold ptrunc. rewrite app_length, firstn_length, repeat_length. lia. Qed.
+  Lemma coeff_ptrunc n p i : coeff fk (ptrunc n p) i = if (i <? n)%nat then coeff fk p i else 0.
+  Proof.
+    unfold ptrunc. destruct (Nat.lt_ge_cases i (length (firstn n p))) as [L|G].
+    - rewrite coeff_app_l by exact L. rewrite coeff_firstn. reflexivity.
+    - rewrite coeff_app_r by exact G. rewrite coeff_repeat0. rewrite firstn_length in G.
+      destruct (i <? n)%nat eqn:E; [|reflexivity]. apply Nat.ltb_lt in E. symmetry. apply coeff_overflow. lia.
+  Qed.
+  Lemma ptrunc_peq n p : (pdeg fk p < Z.of_nat n)%Z -> peq fk (ptrunc n p) p.
+  Proof.
+    intros Hd. apply peq_intro. intros i. rewrite coeff_ptrunc. destruct (i <? n)%nat eqn:E; [reflexivity|].
+    apply Nat.ltb_ge in E. symmetry. apply coeff_above_pdeg. lia.
+  Qed.
+  Lemma ptrunc_pzero n p : pzero fk p -> pzero fk (ptrunc n p).
+  Proof. intros Z i. rewrite coeff_ptrunc. destruct (i <? n)%nat; [apply Z|reflexivity]. Qed.
+
+  (* two lists of the same length with the same entries *)
+  Lemma list_eq_nth (a b : list K) : length a = length b -> (forall i, (i < length a)%nat -> nth i a 0 = nth i b 0) -> a = b.
+  Proof.
+    revert b. induction a as [|x a IH]; intros [|y b] Hl Hn; try discriminate; [reflexivity|].
+    f_equal; [exact (Hn O ltac:(cbn; lia))|]. apply IH; [cbn in Hl; lia|]. intros i Hi. exact (Hn (S i) ltac:(cbn; lia)).
+  Qed.
+  (* convolution theorem in the form needed: if the product fits into n coefficients, the pointwise product of the
+     two transforms is the transform of the (padded) product *)
+  Lemma dft_hadamard w n (A B : list K) : length A = n -> length B = n ->
+    (forall i, (n <= i)%nat -> coeff fk (pmul fk A B) i = 0) ->
+    map2 (kmul fk) (dft fk w A) (dft fk w B) = dft fk w (ptrunc n (pmul fk A B)).
+  Proof.
+    intros LA LB Hfit. apply list_eq_nth.
+    - rewrite dft_length, ptrunc_length.
+      assert (G : forall (x y : list K), length x = length y -> length (map2 (kmul fk) x y) = length x).
+      { induction x as [|c x IH]; intros [|d y] E; try discriminate; [reflexivity|]. cbn [map2 length]. rewrite IH; [reflexivity|cbn in E; lia]. }
+      rewrite G by (rewrite !dft_length; lia). rewrite dft_length. exact LA.
+    - intros i Hi.
+      assert (G : forall (x y : list K) i, (i < length x)%nat -> (i < length y)%nat ->
+                  nth i (map2 (kmul fk) x y) 0 = nth i x 0 * nth i y 0).
+      { induction x as [|c x IH]; intros [|d y] [|j] H1 H2; cbn [length] in *; try lia; [reflexivity|].
+        cbn [map2 nth]. apply IH; lia. }
+      assert (Hin : (i < n)%nat).
+      { revert Hi. clear -LA LB. intros Hi.
+        assert (G' : forall (x y : list K), (length (map2 (kmul fk) x y) <= length x)%nat).
+        { induction x as [|c x IH]; intros [|d y]; cbn [map2 length]; try lia. specialize (IH y). lia. }
+        specialize (G' (dft fk w A) (dft fk w B)). rewrite dft_length in G'. lia. }
+      rewrite G by (rewrite dft_length; lia).
+      rewrite !dft_nth by (rewrite ?ptrunc_length; lia). rewrite !dft_at_peval.
+      rewrite <- peval_pmul. apply peval_peq. apply peq_intro. intros j. rewrite coeff_ptrunc.
+      destruct (j <? n)%nat eqn:E; [reflexivity|]. apply Nat.ltb_ge in E. apply Hfit. exact E.
+  Qed.
+End DftEval.
+
+Lemma next_pow2_spec m : (1 <= m)%Z -> exists l : nat, next_pow2 m = (2 ^ Z.of_nat l)%Z /\ (m <= 2 ^ Z.of_nat l)%Z /\
+  (forall L : nat, (m <= 2 ^ Z.of_nat L)%Z -> (l <= L)%nat).
+Proof.
+  intros Hm. unfold next_pow2. destruct (m <=? 1)%Z eqn:E.
+  - apply Z.leb_le in E. exists O. split; [reflexivity|]. split; [cbn; lia|]. intros; lia.
+  - apply Z.leb_gt in E. pose proof (Z.log2_nonneg (m - 1)) as Hn. exists (Z.to_nat (Z.log2 (m - 1) + 1)).
+    rewrite Z2Nat.id by lia. split; [reflexivity|]. split.
+    + pose proof (Z.log2_spec (m - 1) ltac:(lia)) as [_ S2]. replace (Z.log2 (m - 1) + 1)%Z with (Z.succ (Z.log2 (m - 1))) by lia. lia.
+    + intros L HL. destruct (Nat.le_gt_cases (Z.to_nat (Z.log2 (m - 1) + 1)) L) as [X|X]; [exact X|exfalso].
+      assert (Z.of_nat L <= Z.log2 (m - 1))%Z by lia.
+      pose proof (Z.log2_spec (m - 1) ltac:(lia)) as [S1 _].
+      assert (2 ^ Z.of_nat L <= 2 ^ Z.log2 (m - 1))%Z by (apply Z.pow_le_mono_r; lia). lia.
+Qed.
+
+Section Fast.
+  Context {F1 F2 F3 K : Type} (o1 : fops F1) (o2 : fops F2) (o3 : fops F3) (fk : fieldK K).
+  Context (ok1 : F1 -> Prop) (ok2 : F2 -> Prop) (ok3 : F3 -> Prop) (den1 : F1 -> K) (den2 : F2 -> K) (den3 : F3 -> K).
+  Hypothesis H1 : field_ok o1 fk ok1 den1.
+  Hypothesis H2 : field_ok o2 fk ok2 den2.
+  Hypothesis H3 : field_ok o3 fk ok3 den3.
+  Variable mul12 : F1 -> F2 -> F3.
+  Hypothesis Hmul : forall x y, ok1 x -> ok2 y -> ok3 (mul12 x y) /\ den3 (mul12 x y) = kmul fk (den1 x) (den2 y).
+  Variable ntt1 : list F1 -> option (list F1).
+  Variable ntt2 : list F2 -> option (list F2).
+  Variable intt3 : list F3 -> option (list F3).
+  (* the C06 theorems, for transform lengths 2^l with l <= lmax (lmax = 31 in NttProofs.ntt_is_dft) *)
+  Variable lmax : nat.
+  Variable wr : nat -> K.
+  Hypothesis ntt1_is_dft : forall l x, (l <= lmax)%nat -> length x = (2 ^ l)%nat -> Forall ok1 x ->
+    exists y, ntt1 x = Some y /\ Forall ok1 y /\ length y = length x /\ map den1 y = dft fk (wr l) (map den1 x).
+  Hypothesis ntt2_is_dft : forall l x, (l <= lmax)%nat -> length x = (2 ^ l)%nat -> Forall ok2 x ->
+    exists y, ntt2 x = Some y /\ Forall ok2 y /\ length y = length x /\ map den2 y = dft fk (wr l) (map den2 x).
+  Hypothesis intt3_is_idft : forall l x, (l <= lmax)%nat -> length x = (2 ^ l)%nat -> Forall ok3 x ->
+    exists y, intt3 x = Some y /\ Forall ok3 y /\ length y = length x /\ map den3 y = idft fk (wr l) (map den3 x).
+  Hypothesis wr_half_root : forall l, (l <= lmax)%nat -> half_root fk (wr l) l.
+  Hypothesis wr_nonzero : forall l, (l <= lmax)%nat -> wr l <> k0 fk.
+  Hypothesis two_nz : two_neq_0 fk.
+
+  Local Notation "0" := (k0 fk).
+  Local Notation D1 := (map den1).
+  Local Notation D2 := (map den2).
+  Local Notation D3 := (map den3).
+  Local Notation peq := (peq fk).
+  Local Notation pmul := (pmul fk).
+
+  Lemma resize_D {F} (o : fops F) (ok : F -> Prop) (den : F -> K) (Ho : field_ok o fk ok den) (l : list F) (n : nat) :
+    Forall ok l -> Forall ok (resize l (Z.of_nat n) (fzero o)) /\ length (resize l (Z.of_nat n) (fzero o)) = n /\
+    map den (resize l (Z.of_nat n) (fzero o)) = ptrunc fk n (map den l).
+  Proof.
+    intros Hl. unfold resize, take, zrepeat, ptrunc, zlen. rewrite Nat2Z.id.
+    replace (Z.to_nat (Z.of_nat n - Z.of_nat (length l))) with (n - length l)%nat by lia. split; [|split].
+    - apply Forall_app. split; [apply Forall_firstn; exact Hl|]. apply Forall_forall. intros x Hx. apply repeat_spec in Hx. subst.
+      exact (ok0 o fk ok den Ho).
+    - rewrite app_length, firstn_length, repeat_length. lia.
+    - rewrite map_app, firstn_map, map_repeat', (den0 o fk ok den Ho), map_length. reflexivity.
+  Qed.
+  Lemma map2_D la lb : Forall ok1 la -> Forall ok2 lb ->
+    Forall ok3 (map2 mul12 la lb) /\ D3 (map2 mul12 la lb) = map2 (kmul fk) (D1 la) (D2 lb).
+  Proof.
+    revert lb. induction la as [|x la IH]; intros [|y lb] Ha Hb; cbn [map2 map]; try (split; [constructor|reflexivity]).
+    inversion Ha; inversion Hb; subst. destruct (IH lb ltac:(assumption) ltac:(assumption)) as [I1 I2].
+    destruct (Hmul x y ltac:(assumption) ltac:(assumption)) as [M1 M2]. split; [constructor; assumption|]. rewrite I2, M2. reflexivity.
+  Qed.
+
+  (* fast_multiply: the ring product, whenever the transform length is supported *)
+  Theorem fast_multiply_gen_spec a b : Forall ok1 a -> Forall ok2 b ->
+    (poly_degree o1 a + poly_degree o2 b + 1 <= 2 ^ Z.of_nat lmax)%Z ->
+    exists r, poly_fast_multiply_gen o1 o2 mul12 ntt1 ntt2 intt3 a b = Some r /\ Forall ok3 r /\
+              (zlen r <= Z.max 0 (poly_degree o1 a + poly_degree o2 b + 1))%Z /\
+              peq (D3 r) (pmul (D1 a) (D2 b)).
+  Proof.
+    intros Ha Hb Hsz. unfold poly_fast_multiply_gen.
+    pose proof (degree_ge o1 a) as Ga. pose proof (degree_ge o2 b) as Gb.
+    rewrite (degree_pdeg o1 fk ok1 den1 H1 a Ha) in *. rewrite (degree_pdeg o2 fk ok2 den2 H2 b Hb) in *.
+    set (da := pdeg fk (D1 a)) in *. set (db := pdeg fk (D2 b)) in *.
+    destruct (da + db <? 0)%Z eqn:E.
+    - (* both zero, or zero and constant *)
+      apply Z.ltb_lt in E. exists []. split; [reflexivity|]. split; [constructor|]. split; [cbn; lia|].
+      cbn [map]. symmetry. apply peq_nil_pzero.
+      destruct (Z.eq_dec da (-1)) as [Ea|Ea]; [apply pmul_pzero_l; apply pdeg_neg_iff; exact Ea|].
+      apply pmul_pzero_r. apply pdeg_neg_iff. lia.
+    - apply Z.ltb_ge in E. destruct (next_pow2_spec (da + db + 1) ltac:(lia)) as [l [N1 [N2 N3]]].
+      pose proof (N3 lmax Hsz) as Hl. rewrite N1.
+      assert (Epow : (2 ^ Z.of_nat l)%Z = Z.of_nat (2 ^ l)) by (rewrite Nat2Z.inj_pow; reflexivity). rewrite Epow.
+      destruct (resize_D o1 ok1 den1 H1 a (2 ^ l) Ha) as [A1 [A2 A3]].
+      destruct (resize_D o2 ok2 den2 H2 b (2 ^ l) Hb) as [B1 [B2 B3]].
+      destruct (ntt1_is_dft l _ Hl A2 A1) as [la [LA1 [LA2 [LA3 LA4]]]].
+      destruct (ntt2_is_dft l _ Hl B2 B1) as [lb [LB1 [LB2 [LB3 LB4]]]].
+      rewrite LA1, LB1. destruct (map2_D la lb LA2 LB2) as [M1 M2].
+      set (A := ptrunc fk (2 ^ l) (D1 a)) in *. set (B := ptrunc fk (2 ^ l) (D2 b)) in *.
+      (* the product of the resized operands is the product of the operands and fits below da + db *)
+      assert (PAB : peq (pmul A B) (pmul (D1 a) (D2 b)) /\ forall i, (Z.to_nat (da + db + 1) <= i)%nat -> coeff fk (pmul A B) i = 0).
+      { destruct (Z.eq_dec da (-1)) as [Ea|Ea]; [|destruct (Z.eq_dec db (-1)) as [Eb|Eb]].
+        - assert (ZA : pzero fk A) by (apply ptrunc_pzero, pdeg_neg_iff; exact Ea).
+          split; [|intros i _; apply pmul_pzero_l; exact ZA].
+          transitivity (@nil K); [apply peq_nil_pzero, pmul_pzero_l; exact ZA|].
+          symmetry. apply peq_nil_pzero, pmul_pzero_l, pdeg_neg_iff. exact Ea.
+        - assert (ZB : pzero fk B) by (apply ptrunc_pzero, pdeg_neg_iff; exact Eb).
+          split; [|intros i _; apply pmul_pzero_r; exact ZB].
+          transitivity (@nil K); [apply peq_nil_pzero, pmul_pzero_r; exact ZB|].
+          symmetry. apply peq_nil_pzero, pmul_pzero_r, pdeg_neg_iff. exact Eb.
+        - assert (EA : peq A (D1 a)) by (apply ptrunc_peq; fold da; lia).
+          assert (EB : peq B (D2 b)) by (apply ptrunc_peq; fold db; lia).
+          split; [rewrite EA, EB; reflexivity|]. intros i Hi. apply coeff_pmul_above.
+          rewrite (pdeg_peq fk _ _ EA), (pdeg_peq fk _ _ EB). fold da db. lia. }
+      destruct PAB as [PAB1 PAB2].
+      assert (Hh : D3 (map2 mul12 la lb) = dft fk (wr l) (ptrunc fk (2 ^ l) (pmul A B))).
+      { rewrite M2, LA4, LB4, A3, B3. fold A B. apply dft_hadamard.
+        - apply ptrunc_length.
+        - apply ptrunc_length.
+        - intros i Hi. apply PAB2. lia. }
+      assert (Lh : length (map2 mul12 la lb) = (2 ^ l)%nat).
+      { apply (f_equal (@length K)) in Hh. rewrite map_length, dft_length, ptrunc_length in Hh. exact Hh. }
+      destruct (intt3_is_idft l _ Hl Lh M1) as [h [I1 [I2 [I3 I4]]]]. rewrite I1.
+      rewrite Hh, (idft_dft fk two_nz l (wr l) _ (ptrunc_length fk _ _) (wr_half_root l Hl) (wr_nonzero l Hl)) in I4.
+      eexists. split; [reflexivity|]. split; [apply Forall_take; exact I2|].
+      split; [rewrite zlen_take; lia|].
+      rewrite map_take, I4. unfold take. rewrite <- PAB1. apply peq_intro. intros i.
+      rewrite coeff_firstn, coeff_ptrunc.
+      destruct (i <? Z.to_nat (da + db + 1))%nat eqn:E1.
+      + apply Nat.ltb_lt in E1. destruct (i <? 2 ^ l)%nat eqn:E2; [reflexivity|]. apply Nat.ltb_ge in E2. lia.
+      + apply Nat.ltb_ge in E1. symmetry. apply PAB2. exact E1.
+  Qed.
+
+  (* multiply: both arms of the dispatch (the threshold is whatever gen/PolyGen.v says) *)
+  Theorem multiply_gen_spec a b : Forall ok1 a -> Forall ok2 b ->
+    (poly_degree o1 a + poly_degree o2 b + 1 <= 2 ^ Z.of_nat lmax)%Z ->
+    exists r, poly_multiply_gen o1 o2 o3 mul12 ntt1 ntt2 intt3 a b = Some r /\ Forall ok3 r /\
+              (zlen r <= Z.max 0 (poly_degree o1 a + poly_degree o2 b + 1))%Z /\
+              peq (D3 r) (pmul (D1 a) (D2 b)).
+  Proof.
+    intros Ha Hb Hsz. unfold poly_multiply_gen.
+    destruct (poly_degree o1 a + poly_degree o2 b <? FAST_MULTIPLY_CUTOFF_THRESHOLD)%Z.
+    - destruct (naive_multiply_gen_spec o1 o2 o3 fk ok1 ok2 ok3 den1 den2 den3 H1 H2 H3 mul12 Hmul a b Ha Hb) as [S1 S2].
+      eexists. split; [reflexivity|]. split; [exact S1|]. split; [|exact S2].
+      rewrite naive_multiply_gen_length with (fk := fk) (ok1 := ok1) (ok2 := ok2) (ok3 := ok3) (den1 := den1) (den2 := den2) (den3 := den3);
+        [|exact Hmul].
+      pose proof (degree_ge o1 a). pose proof (degree_ge o2 b).
+      destruct ((poly_degree o1 a <? 0) || (poly_degree o2 b <? 0))%Z; lia.
+    - apply fast_multiply_gen_spec; assumption.
+  Qed.
+End Fast.
